@@ -15,6 +15,8 @@ for d in sorted(os.listdir(os.path.join(VERIF, "seeded"))):
     if m.get("caught_by") and not hit:
         hit, rules = [m["caught_by"]], []
     det = ", ".join(hit) if hit else "**missed**"
+    if hit and ev.get("budget_s", 12) != 12:
+        det += " (%d s budget)" % ev["budget_s"]
     if hit:
         caught += 1
         own += m["property"] in hit or any(h.startswith(m["property"]) for h in hit)
